@@ -81,7 +81,7 @@ var (
 	goodIntsEnvOnly  = []string{"007", "08080", "+5"}
 	goodUintsEnvOnly = []string{"0500", "000250", "099", "00"}
 	badNumEnvOnly    = []string{"0x1F", "0b11", "1_000"}
-	badDur    = []string{"abc", "5 parsecs", "1mm", "--1s", "ms"}
+	badDur           = []string{"abc", "5 parsecs", "1mm", "--1s", "ms"}
 )
 
 func genValue(t *rapid.T, kind string, bad bool, label string) string {
